@@ -108,6 +108,19 @@ type Env struct {
 	posIdx  []int
 	letters []string
 	seqT    []string // elements of the SeqT operand of this execution
+
+	// viewBase is a small array allocated anew for every evaluated side (eval resets it); the
+	// "views" callback returns sub-slices of it, i.e. results with spare capacity that alias each
+	// other, as Seq.Take/Init or s[:i] produce them.
+	viewBase []string
+}
+
+// Views returns base[:n] of this evaluation's shared array {"p","q","r"}.
+func (e *Env) Views(n int) []string {
+	if e.viewBase == nil {
+		e.viewBase = []string{"p", "q", "r"}
+	}
+	return e.viewBase[:n]
 }
 
 var cur *Env
@@ -227,6 +240,7 @@ type outcome struct {
 
 func (e *Env) eval(f func() any, log *[]string) outcome {
 	e.log = log
+	e.viewBase = nil
 	var o outcome
 	o.panic = mc.Catch(func() {
 		r := renderer{}
